@@ -1392,24 +1392,33 @@ def duplicate_pair_rule(M, R):
             args = [a for a in e.get('args', []) if a is not None]
             good = False
             if len(args) == 2:
-                args = [_resolve_local(fn, a, set(it_d)) for a in args]      # named copies: `const auto pair_end = it + 2;`
-                a0, a1 = fn.sn(args[0]), fn.sn(args[1])
-                hops = 0
-                while a0 is not None and a0.get('k') == 'construct' and a0.get('args') and hops < 3:
-                    a0 = fn.sn(a0['args'][0])
-                    hops += 1
-                first_ok = a0 is not None and a0.get('k') == 'var' and a0.get('d') in it_d
-                step = None
-                hops = 0
-                while a1 is not None and a1.get('k') == 'construct' and a1.get('args') and hops < 3:
-                    a1 = fn.sn(a1['args'][0])
-                    hops += 1
-                if a1 is not None and a1.get('k') == 'call':
-                    cargs = [c for c in a1.get('args', []) if c is not None]
-                    if a1.get('op') == '+' and a1.get('recv') is not None and len(cargs) == 1 and fn.root_var(a1['recv']) and fn.root_var(a1['recv'])[1] in it_d:
-                        step = fn.const_value(cargs[0])
-                    elif a1.get('q') == 'std::next' and len(cargs) == 2 and fn.root_var(cargs[0]) and fn.root_var(cargs[0])[1] in it_d:
-                        step = fn.const_value(cargs[1])
+                def offset(nid, depth=0):
+                    """Distance of an iterator expression from the adjacent_find result (named single-definition locals,
+                    + / - constants, std::next / std::prev are followed); None when it is something else."""
+                    if depth > 8:
+                        return None
+                    nid = _resolve_local(fn, nid, set(it_d))
+                    x, h = fn.sn(nid), 0
+                    while x is not None and x.get('k') == 'construct' and len(x.get('args', [])) == 1 and h < 4:
+                        nid = _resolve_local(fn, x['args'][0], set(it_d))
+                        x = fn.sn(nid)
+                        h += 1
+                    if x is None:
+                        return None
+                    if x.get('k') == 'var':
+                        return 0 if x.get('d') in it_d else None
+                    if x.get('k') == 'call':
+                        cargs = [c for c in x.get('args', []) if c is not None]
+                        if x.get('op') in ('+', '-') and x.get('recv') is not None and len(cargs) == 1:
+                            base, k = offset(x['recv'], depth + 1), fn.const_value(cargs[0])
+                            return None if base is None or k is None else (base + k if x['op'] == '+' else base - k)
+                        if x.get('q') in ('std::next', 'std::prev') and cargs:
+                            base = offset(cargs[0], depth + 1)
+                            k = 1 if len(cargs) == 1 or fn.nodes[cargs[1]].get('cls') == 'CXXDefaultArgExpr' else fn.const_value(cargs[1])
+                            return None if base is None or k is None else (base + k if x['q'] == 'std::next' else base - k)
+                    return None
+                first_ok = offset(args[0]) == 0
+                step = offset(args[1])
                 good = first_ok and step == 2
                 if not good:
                     msg = 'erase(%s) after adjacent_find does not remove exactly [it, it + 2): duplicates must cancel in pairs (even-odd rule)' % (
